@@ -607,13 +607,16 @@ def c05(m, run):
     P, N = (5, 5) if big else (4, 4)
     for lab in ('rows of points (curve / surface)', 'slabs of points (volume)'):
         tk = Tally(run, 'KR1.refined-knot-vector-is-the-sorted-merge', 'helpers.knot_refinement :: %s' % lab,
-                   'degree 1..%d x clamped order types with n = p+1..p+%d x {density 1, density 2, one added knot inside the first span, an added knot on an existing knot plus one inside}; arithmetic zero tests forked' % (P, N))
+                   'degree 1..%d x clamped order types with n = p+1..p+%d x {density 1, density 2, density 3 (small nets), one added knot inside the first span, an added knot on an existing knot plus one inside}; arithmetic zero tests forked' % (P, N))
         tc = Tally(run, 'SK3.cells-defined', 'helpers.knot_refinement :: %s' % lab, tk.describe)
         for p in range(1, P + 1):
             for n in range(p + 1, p + N + 1):
                 for ranks in knot_order_types(p, n, True):
                     lo_, hi_ = ranks[p], ranks[p] + 1
-                    for density, extra in ((1, ()), (2, ()), (1, (lo_ + 0.25,)), (1, (hi_, lo_ + 0.25))):
+                    variants = [(1, ()), (2, ()), (1, (lo_ + 0.25,)), (1, (hi_, lo_ + 0.25))]
+                    if p <= 2 and n <= p + 2:
+                        variants.append((3, ()))          # density d bisects d times (2^d parts per span), it does not cut a span into 2 d parts
+                    for density, extra in variants:
                         dist = sorted(set(ranks[p:len(ranks) - p]) | set(extra))
                         for _ in range(density):
                             nxt = []
